@@ -68,39 +68,93 @@ def rules(chk, db):
                    (rec, has_storage, r.get('recargs')), function=rec)
 
     # ---- S3 ------------------------------------------------------------
+    # "the slot" is denoted by: a local initialised from the storage function, a direct call of the storage function, or the
+    # pointer member that caches it.  Every assignment to *slot must execute only while slot->empty() holds - either tested in
+    # the same function or, for a private helper, at every one of its call sites (one level of callers).
+    def slot_exprs(f):
+        local = {}
+        for y in ir.walk(f.get('body')):
+            if y.get('k') == 'decl':
+                for v in y['vars']:
+                    init = v.get('init')
+                    if init is not None and 'id' in v:
+                        c = ir.strip_all_casts(init)
+                        if c.get('k') == 'call' and c.get('callee') and c['callee']['n'] in storage_fn_names:
+                            local[v['id']] = v['n']
+        return local
+
+    def is_slot(e, local):
+        e = ir.strip_all_casts(e)
+        if e.get('k') == 'ref' and e.get('id') in local:
+            return True
+        if e.get('k') == 'call' and e.get('callee') and e['callee']['n'] in storage_fn_names:
+            return True
+        if e.get('k') == 'mem' and ir.strip_all_casts(e.get('b', {})).get('k') == 'this' and 'nop::Optional<' in (e.get('t') or '') and \
+                (e.get('t') or '').rstrip().endswith('*'):
+            return True
+        return False
+
+    def guards_empty(g, local):
+        for cond, sense in ir.facts_of(g):
+            if cond.get('k') == 'call' and cond.get('callee') and cond['callee']['n'] == 'empty' and sense and is_slot(cond.get('obj', {}), local):
+                return True
+        return False
+
+    by_rec = {}
+    for f in tl_fns:
+        if 'body' in f:
+            by_rec.setdefault(f['rec'], []).append(f)
+    for rec, members in sorted(by_rec.items()):
+        unguarded_writers = {}        # fid -> (fn, call) of writes not guarded locally
+        nwrites = 0
+        for f in members:
+            local = slot_exprs(f)
+            for st, g in ir.guarded(f['body']):
+                if st['k'] not in ('expr', 'ret', 'decl'):
+                    continue
+                for c in ir.calls(st.get('e') if st['k'] != 'decl' else {'k': 'block', 'body': [st]}):
+                    cal = c.get('callee')
+                    if not cal or cal['n'] != 'operator=' or not c.get('args'):
+                        continue
+                    tgt = ir.strip_all_casts(c['args'][0])
+                    if not (tgt.get('k') == 'un' and tgt['op'] == '*' and is_slot(tgt['e'], local)):
+                        continue
+                    nwrites += 1
+                    if guards_empty(g, local):
+                        chk.ok('S3', facts.site(f, c.get('loc')), 'write to the thread-local slot in %s is guarded by ->empty()' % f['n'])
+                    else:
+                        unguarded_writers.setdefault(f.get('fid'), []).append((f, c))
+        for fid, lst in unguarded_writers.items():
+            f = lst[0][0]
+            sites = []
+            for g2 in members:
+                local2 = slot_exprs(g2)
+                for st, g in ir.guarded(g2['body']):
+                    whole = st.get('e') if st['k'] in ('expr', 'ret') else ({'k': 'block', 'body': [st]} if st['k'] == 'decl' else None)
+                    for c in ir.calls(whole) if whole is not None else []:
+                        cal = db.callee(g2, c)
+                        if cal is not None and cal.get('fid') == fid and cal.get('_tu') is f.get('_tu'):
+                            sites.append((g2, c, guards_empty(g, local2)))
+                # constructor initialisers are unconditional call sites
+                for i in g2.get('inits', []):
+                    for c in ir.calls(i.get('e')):
+                        cal = db.callee(g2, c)
+                        if cal is not None and cal.get('fid') == fid and cal.get('_tu') is f.get('_tu'):
+                            sites.append((g2, c, False))
+            private_helper = f.get('access') in ('private', 'protected') and sites
+            for (wf, wc) in lst:
+                bad_sites = [(g2, c) for g2, c, ok in sites if not ok]
+                okay = bool(private_helper) and not bad_sites
+                chk.decide(okay, 'S3', facts.site(wf, wc.get('loc')),
+                           'write to the thread-local slot in %s is NOT guarded by ->empty()%s' % (
+                               wf['n'], '' if not private_helper else (' and is reached unguarded from %s' % sorted({g2['n'] for g2, c in bad_sites}) if bad_sites
+                                                                      else ' locally, but every call site tests ->empty() first')),
+                           function=ir.fn_label(wf))
+        if nwrites == 0:
+            chk.unanalysable('S3', rec, 'no assignment to the thread-local slot recognised in %s (setup role not found)' % rec)
     for f in tl_fns:
         if 'body' not in f:
             continue
-        # Setup role: obtains the slot pointer from the storage function and writes through it.
-        slot_vars = {}
-        for st, g in ir.guarded(f['body']):
-            if st['k'] == 'decl':
-                for v in st['vars']:
-                    init = v.get('init')
-                    if init is not None:
-                        c = ir.strip(init)
-                        if c['k'] == 'call' and c.get('callee') and c['callee']['n'] in storage_fn_names:
-                            slot_vars[v['id']] = v['n']
-        if slot_vars:
-            for st, g in ir.guarded(f['body']):
-                if st['k'] != 'expr':
-                    continue
-                for c in ir.calls(st['e']):
-                    cal = c.get('callee')
-                    if not cal or cal['n'] != 'operator=':
-                        continue
-                    tgt = ir.strip(c['args'][0])
-                    if not (tgt['k'] == 'un' and tgt['op'] == '*' and ir.strip(tgt['e']).get('id') in slot_vars):
-                        continue
-                    vid = ir.strip(tgt['e'])['id']
-                    guarded_by_empty = False
-                    for cond, sense in ir.facts_of(g):
-                        if cond['k'] == 'call' and cond.get('callee') and cond['callee']['n'] == 'empty' and sense and \
-                                ir.strip(cond.get('obj', {})).get('id') == vid:
-                            guarded_by_empty = True
-                    chk.decide(guarded_by_empty, 'S3', facts.site(f, c.get('loc')),
-                               'write to the thread-local slot in %s is %sguarded by %s->empty()' %
-                               (f['n'], '' if guarded_by_empty else 'NOT ', slot_vars[vid]), function=ir.fn_label(f))
         if f['n'] == 'Clear':
             clears = [c for c in ir.calls(f['body']) if ir.callee_name(c) == 'clear' and
                       ir.strip(c.get('obj', {})).get('k') == 'mem']
@@ -154,5 +208,8 @@ def run(chk, db):
                        'thread-safe on distinct objects (libc/libstdc++ contract)']
     facts.gate(chk, db, ['nop/'])
     rules(chk, db)
+    # process-wide resources: a descriptor closed twice is a write to state shared with every other thread
+    from . import c17
+    c17.fd_ownership(chk, db, 'S7')
     witness.run(chk, 'c19_slots.cpp', 'S6', 'compile-time witnesses: slot tag types denote distinct (T, Slot) pairs', minimum=10)
     report.selftest(chk, rules, 'c19.cpp', {'S1': 4, 'S2': 1, 'S3': 2, 'S4': 2, 'S5': 2})
